@@ -127,6 +127,7 @@ Section ExpProofs.
     let rv := fst (vsplit' (p_mask pf) (hs' w n) sup) in
     let hidden := snd (vsplit' (p_mask pf) (hs' w n) sup) in
     let c := H (tr' (p_abar pf) (p_aprime pf) hh0 (p_c1 pf) (p_d pf) hidden (p_c2 pf)) nonce in
+    pads_bad Fixed (p_count pf) (p_mask pf) = false /\
     (count_true (p_mask pf) <= length sup)%nat /\
     (strict = true -> length sup = count_true (p_mask pf)) /\
     p_aprime pf * w = p_abar pf /\
@@ -154,6 +155,9 @@ Section ExpProofs.
   Proof.
     unfold verify_gen, accepts_spec.
     destruct (vsplit' (p_mask pf) (hs' w (p_count pf)) sup) as [rv hidden] eqn:Hv. cbn [fst snd].
+    destruct (pads_bad Fixed (p_count pf) (p_mask pf)) eqn:Hpb.
+    { split; [discriminate|]. intros [Hc _]. discriminate. }
+    match goal with |- ?L <-> (_ /\ ?R) => cut (L <-> R); [intros Hiff; rewrite Hiff; tauto|] end.
     destruct (Nat.ltb_spec (length sup) (count_true (p_mask pf))) as [Hlt|Hge]; cbn [orb].
     { split; [discriminate|]. intros [Hc _]. lia. }
     destruct strict; cbn [andb].
@@ -194,6 +198,16 @@ Section ExpProofs.
     destruct b; cbn; rewrite <- IH; reflexivity.
   Qed.
 
+  Lemma idx_from_below : forall mask s n, (s + length mask <= n)%nat ->
+    forallb (fun i => i <? n) (idx_from s mask) = true.
+  Proof.
+    induction mask as [|b ms IH]; intros s n Hl; [reflexivity|]. cbn [length] in Hl. cbn [idx_from].
+    destruct b; cbn [forallb].
+    - rewrite (IH (S s) n) by lia. replace (s <? n) with true; [reflexivity|].
+      symmetry; apply Nat.ltb_lt; lia.
+    - apply IH; lia.
+  Qed.
+
   Lemma hs_length w n : length (hs' w n) = n.
   Proof. unfold hs. rewrite map_length, seq_length. reflexivity. Qed.
 
@@ -223,6 +237,7 @@ Section ExpProofs.
     assert (Hb : b = 1 + hh0 * s_s sg + (dot' rv + dot' hd)).
     { unfold b, bval. fold n. fold hh0. rewrite Hds. reflexivity. }
     repeat split.
+    - unfold pads_bad. rewrite (idx_from_below mask 0 n); [reflexivity|lia].
     - rewrite app_length, map_length. lia.
     - discriminate.
     - transitivity ((s_a sg * (w + s_e sg)) * r1 - s_a sg * r1 * s_e sg); [ring|]. rewrite Hsig. reflexivity.
@@ -261,7 +276,7 @@ Section ExpProofs.
     dot' (fst (vsplit' (p_mask pf) (hs' w (p_count pf)) s1)) = dot' (fst (vsplit' (p_mask pf) (hs' w (p_count pf)) s2)).
   Proof.
     intros A1 A2. apply verify_accept_iff in A1. apply verify_accept_iff in A2.
-    unfold accepts_spec in A1, A2. unfold challenge_of.
+    unfold accepts_spec in A1, A2. destruct A1 as [_ A1]. destruct A2 as [_ A2]. unfold challenge_of.
     rewrite (vsplit_hidden (p_mask pf) (hs' w (p_count pf)) s1 []) in A1.
     rewrite (vsplit_hidden (p_mask pf) (hs' w (p_count pf)) s2 []) in A2.
     set (c := H _ nonce) in *.
@@ -281,7 +296,7 @@ Section ExpProofs.
     challenge_of w pf n1 = challenge_of w pf n2 \/ p_abar pf = p_d pf.
   Proof.
     intros A1 A2. apply verify_accept_iff in A1. apply verify_accept_iff in A2.
-    unfold accepts_spec in A1, A2. unfold challenge_of.
+    unfold accepts_spec in A1, A2. destruct A1 as [_ A1]. destruct A2 as [_ A2]. unfold challenge_of.
     rewrite (vsplit_hidden (p_mask pf) (hs' w (p_count pf)) sup []) in A1, A2.
     set (c1 := H _ n1) in *. set (c2 := H _ n2) in *.
     destruct A1 as [_ [_ [_ [_ [E1 _]]]]]. destruct A2 as [_ [_ [_ [_ [E2 _]]]]].
@@ -299,7 +314,7 @@ Section ExpProofs.
     w1 = w2 \/ p_aprime pf = 0.
   Proof.
     intros A1 A2. apply verify_accept_iff in A1. apply verify_accept_iff in A2.
-    destruct A1 as [_ [_ [E1 _]]]. destruct A2 as [_ [_ [E2 _]]].
+    destruct A1 as [_ [_ [_ [E1 _]]]]. destruct A2 as [_ [_ [_ [E2 _]]]].
     assert (Hz : p_aprime pf * (w1 - w2) = 0).
     { transitivity (p_aprime pf * w1 - p_aprime pf * w2); [ring|]. rewrite E1, E2. ring. }
     apply mul_zero_cases in Hz. destruct Hz as [Hz|Hz]; [right; exact Hz|left].
@@ -317,6 +332,7 @@ Section ExpProofs.
   Proof.
     intros A1 A2. apply verify_accept_iff in A1. apply verify_accept_iff in A2.
     unfold accepts_spec in A1, A2. cbn [p_count p_mask p_aprime p_abar p_d p_c1 p_r1 p_c2 p_r2] in A2.
+    destruct A1 as [_ A1]. destruct A2 as [_ A2].
     set (c := H _ nonce) in *.
     destruct A1 as [_ [_ [_ [_ [E1 [_ G1]]]]]]. destruct A2 as [_ [_ [_ [_ [E2 [_ G2]]]]]].
     split.
@@ -338,5 +354,74 @@ Section ExpProofs.
     destruct j as [|k]; cbn.
     - ring.
     - rewrite IH by lia. ring.
+  Qed.
+  (* ---------- response counts, challenge coverage, simulated sub-proofs ---------- *)
+  Lemma response_counts_lemma strict w pf nonce sup :
+    verify' strict Fixed w pf nonce sup = VAccept ->
+    length (p_r1 pf) = 2%nat /\
+    length (p_r2 pf) = (2 + length (snd (vsplit' (p_mask pf) (hs' w (p_count pf)) sup)))%nat.
+  Proof.
+    intros A. apply verify_accept_iff in A. destruct A as [_ [_ [_ [_ [L1 [_ [L2 _]]]]]]]. split; assumption.
+  Qed.
+
+  Lemma wrong_count_rejected strict w pf nonce sup :
+    length (p_r1 pf) <> 2%nat \/
+    length (p_r2 pf) <> (2 + length (snd (vsplit' (p_mask pf) (hs' w (p_count pf)) sup)))%nat ->
+    verify' strict Fixed w pf nonce sup <> VAccept.
+  Proof. intros Hne A. apply response_counts_lemma in A. destruct A. destruct Hne; contradiction. Qed.
+
+  (* the challenge input determines every commitment and every hidden base *)
+  Lemma transcript_inj a b h c d hid e a' b' h' c' d' hid' e' :
+    tr' a b h c d hid e = tr' a' b' h' c' d' hid' e' ->
+    a = a' /\ b = b' /\ h = h' /\ c = c' /\ d = d' /\ hid = hid' /\ e = e'.
+  Proof.
+    unfold transcript. intros E. injection E as Ea Eb Eh Ec Ed _ Et.
+    apply app_inj_tail in Et. destruct Et. repeat split; assumption.
+  Qed.
+
+  Lemma transcript_length a b h c d hid e : length (tr' a b h c d hid e) = (7 + length hid)%nat.
+  Proof. unfold transcript. cbn [length]. rewrite app_length. cbn. lia. Qed.
+
+  (* a sub-proof simulated for a challenge cstar chosen first (commitment := sum bases*z + target*cstar, any z) is
+     accepted only if the verifier's challenge - computed from a transcript that contains that very commitment -
+     equals cstar, or the statement point is the identity *)
+  Lemma simulated_vc2_lemma strict w pf nonce sup cstar :
+    let hidden := snd (vsplit' (p_mask pf) (hs' w (p_count pf)) sup) in
+    let rv := fst (vsplit' (p_mask pf) (hs' w (p_count pf)) sup) in
+    let target := - (1 + dot' rv) in
+    p_c2 pf = lin' (p_d pf :: h0' w (p_count pf) :: hidden) (p_r2 pf) + target * cstar ->
+    verify' strict Fixed w pf nonce sup = VAccept ->
+    target = 0 \/
+    H (tr' (p_abar pf) (p_aprime pf) (h0' w (p_count pf)) (p_c1 pf) (p_d pf) hidden (p_c2 pf)) nonce = cstar.
+  Proof.
+    intros hidden rv target Hsim A. apply verify_accept_iff in A. unfold accepts_spec in A. destruct A as [_ A].
+    fold hidden in A. fold rv in A. fold target in A.
+    set (c := H _ nonce) in *.
+    destruct A as [_ [_ [_ [_ [_ [_ E2]]]]]].
+    assert (Hz : target * (c - cstar) = 0).
+    { transitivity ((lin' (p_d pf :: h0' w (p_count pf) :: hidden) (p_r2 pf) + target * c)
+                    - (lin' (p_d pf :: h0' w (p_count pf) :: hidden) (p_r2 pf) + target * cstar)); [ring|].
+      rewrite E2, <- Hsim. ring. }
+    apply mul_zero_cases in Hz. destruct Hz as [Hz|Hz]; [left; exact Hz|right].
+    transitivity (c - cstar + cstar); [ring|]. rewrite Hz. ring.
+  Qed.
+
+  Lemma simulated_vc1_lemma strict w pf nonce sup cstar :
+    let hidden := snd (vsplit' (p_mask pf) (hs' w (p_count pf)) sup) in
+    p_c1 pf = lin' [p_aprime pf; h0' w (p_count pf)] (p_r1 pf) + (p_abar pf - p_d pf) * cstar ->
+    verify' strict Fixed w pf nonce sup = VAccept ->
+    p_abar pf = p_d pf \/
+    H (tr' (p_abar pf) (p_aprime pf) (h0' w (p_count pf)) (p_c1 pf) (p_d pf) hidden (p_c2 pf)) nonce = cstar.
+  Proof.
+    intros hidden Hsim A. apply verify_accept_iff in A. unfold accepts_spec in A. destruct A as [_ A]. fold hidden in A.
+    set (c := H _ nonce) in *.
+    destruct A as [_ [_ [_ [_ [E1 _]]]]].
+    assert (Hz : (p_abar pf - p_d pf) * (c - cstar) = 0).
+    { transitivity ((lin' [p_aprime pf; h0' w (p_count pf)] (p_r1 pf) + (p_abar pf - p_d pf) * c)
+                    - (lin' [p_aprime pf; h0' w (p_count pf)] (p_r1 pf) + (p_abar pf - p_d pf) * cstar)); [ring|].
+      rewrite E1, <- Hsim. ring. }
+    apply mul_zero_cases in Hz. destruct Hz as [Hz|Hz].
+    - left. transitivity (p_abar pf - p_d pf + p_d pf); [ring|]. rewrite Hz. ring.
+    - right. transitivity (c - cstar + cstar); [ring|]. rewrite Hz. ring.
   Qed.
 End ExpProofs.
